@@ -549,6 +549,20 @@ def register_element(definition: ElementDefinition, **kwargs):
     """
     global _ELEMENTS
 
+    if isinstance(definition, ElementDefinition):
+        key: str
+        default_class: Type[Element]
+        for key, default_class in _DEFAULT_ELEMENTS.items():
+            if (
+                default_class is definition.Class
+                and key != str(definition.symbol).strip()
+            ):
+                # Initializing the class would overwrite the static information
+                # (symbol, default values, etc.) of a default element.
+                raise KeyError(
+                    f"The class '{definition.Class}' belongs to the default element '{key}' and cannot be registered using another symbol!"
+                )
+
     symbol: str
     Class: Type[Element]
     symbol, Class = _initialize_element(definition, **kwargs)
